@@ -40,14 +40,14 @@ type SEnc struct {
 }
 
 type ScalarDom struct {
-	RL      *poly.Ring // mod l
-	RZ      *poly.Ring // integers (bytes)
-	Globals map[string]Val
-	ReducedBytes [][]Val // byte arrays isReduced has accepted on this path
-	Reduced map[*Object]bool // byte arrays on which isReduced returned true
-	Obls    []string
-	Calls   []string // primitive calls in order
-	Descend map[string]bool
+	RL           *poly.Ring // mod l
+	RZ           *poly.Ring // integers (bytes)
+	Globals      map[string]Val
+	ReducedBytes [][]Val          // byte arrays isReduced has accepted on this path
+	Reduced      map[*Object]bool // byte arrays on which isReduced returned true
+	Obls         []string
+	Calls        []string // primitive calls in order
+	Descend      map[string]bool
 	// PrimIsReduced: treat isReduced as an uninterpreted predicate (fork)
 	PrimIsReduced bool
 }
